@@ -428,7 +428,15 @@ func c09NilConfigs(p *Prog, fn *ssa.Function, r *c09FieldReader) (configs []c09G
 }
 
 // c09FoldNullable walks IsNullable under G; returns the classes of the reachable returns with a description.
-func c09FoldNullable(p *Prog, fn *ssa.Function, r *c09FieldReader, g c09G, nullableM string) (classes map[string][]string) {
+func c09FoldNullable(p *Prog, fn *ssa.Function, r *c09FieldReader, g c09G, nullableM string, assume ...string) (classes map[string][]string) {
+	assumed := func(v ssa.Value) bool { // v is `recv.<assumed child>.IsNullable()`
+		call, ok := v.(*ssa.Call)
+		if !ok || !call.Call.IsInvoke() || call.Call.Method.Name() != nullableM || len(assume) == 0 {
+			return false
+		}
+		pth, ok := r.valuePath(call.Call.Value)
+		return ok && pth == assume[0]
+	}
 	classes = map[string][]string{}
 	if len(fn.Blocks) == 0 {
 		classes["UNKNOWN"] = append(classes["UNKNOWN"], "no body")
@@ -464,14 +472,19 @@ func c09FoldNullable(p *Prog, fn *ssa.Function, r *c09FieldReader, g c09G, nulla
 			}
 			return "UNKNOWN"
 		case *ssa.Call:
+			if assumed(x) {
+				return "TRUE"
+			}
 			if x.Call.IsInvoke() && x.Call.Method.Name() == nullableM {
 				// IsNullable of a child: false for a NOT NULL child. If G says that child is nil the call cannot be reached.
-				if pth, ok := r.valuePath(x.Call.Value); ok {
+				pth, ok := r.valuePath(x.Call.Value)
+				if ok {
 					if isNil, known := g.lookup(c09Atom{pth, "nil"}); known && isNil {
 						return "INFEASIBLE"
 					}
+					return "CHILD"
 				}
-				return "CHILD"
+				return "CHILD?" // a child reached through a collection / local: which one is not read
 			}
 		case *ssa.UnOp:
 			if x.Op == token.NOT {
@@ -547,8 +560,15 @@ func c09FoldNullable(p *Prog, fn *ssa.Function, r *c09FieldReader, g c09G, nulla
 			walk(state{s.b.Succs[0], s.b, s.g, c09Step(s.b, s.b.Succs[0], s.env)}, depth+1)
 		case *ssa.If:
 			a, whenTrue, ok := r.atomOf(x.Cond, s.env)
+			condV, neg := x.Cond, false
+			if u, isNot := condV.(*ssa.UnOp); isNot && u.Op == token.NOT {
+				condV, neg = u.X, true
+			}
 			for i, succ := range s.b.Succs {
 				g2 := s.g
+				if assumed(condV) && (i == 0) == neg {
+					continue // the assumed child is nullable: only the edge on which its IsNullable() is true
+				}
 				if ok {
 					atomVal := whenTrue == (i == 0)
 					if v, known := s.g.lookup(a); known {
